@@ -86,10 +86,22 @@ func BytesLen(n int) *rapid.Generator[[]byte] {
 
 // ExtremeInts are argument values at the limits of int and at the 32-bit width and sign boundaries
 // (an implementation that narrows an int, or adds two of them, goes wrong exactly here).
-var ExtremeInts = []int{
-	math.MaxInt, math.MaxInt - 1, math.MaxInt - 2, math.MaxInt - 7, math.MinInt, math.MinInt + 1, math.MinInt + 2,
-	math.MaxInt32, math.MaxInt32 + 1, math.MaxInt32 - 1, math.MinInt32, math.MinInt32 - 1,
-	1 << 32, 1<<32 + 1, 1<<32 + 2, 1<<32 - 1, -(1 << 32), -(1 << 32) + 1, 1 << 33, 1 << 62, -1 << 62, 1 << 31, 1<<31 + 1,
+var ExtremeInts = FitInt([]int64{
+	math.MaxInt64, math.MaxInt64 - 1, math.MaxInt64 - 2, math.MaxInt64 - 7, math.MinInt64, math.MinInt64 + 1, math.MinInt64 + 2,
+	math.MaxInt32, math.MaxInt32 + 1, math.MaxInt32 - 1, math.MaxInt32 - 2, math.MaxInt32 - 7, math.MinInt32, math.MinInt32 + 1, math.MinInt32 - 1,
+	1 << 32, 1<<32 + 1, 1<<32 + 2, 1<<32 - 1, -(1 << 32), -(1 << 32) + 1, 1 << 33, 1 << 62, -1 << 62, 1 << 31, 1<<31 + 1, 1 << 30, -(1 << 30),
+})
+
+// FitInt keeps the values that an int of this platform can hold (on a 32-bit platform the limits of int are
+// the 32-bit entries of the list).
+func FitInt(vs []int64) []int {
+	var out []int
+	for _, v := range vs {
+		if int64(int(v)) == v {
+			out = append(out, int(v))
+		}
+	}
+	return out
 }
 
 // ExtremeInt draws one of ExtremeInts.
